@@ -1,1 +1,658 @@
-fn main() { let v = postcard::to_allocvec(&1u8).unwrap(); println!("{v:?}"); }
+//! C46 — Public data types round-trip through their wire and JSON forms.   (engine E1)
+//!
+//! Every value of the deterministic families of `shared/c46_values.rs` is pushed through
+//! every wire form its type offers; for each (type, form) the check demands
+//! `decode(encode(v)) == v` and `encode(decode(encode(v))) == encode(v)`.
+//!
+//! Forms: `pb` / `pb-ld` = `tendermint_proto::Protobuf::{encode_vec, decode_vec}` and the
+//! length-delimited pair; `raw` = `From<T> for Raw` / `TryFrom<Raw> for T` compared on the
+//! prost message; `json` = `serde_json::{to_string, from_str}`; `json-value` =
+//! `{to_value, from_value}` (owned strings, no borrowed `&str`); `json-reader` =
+//! `{to_vec, from_reader}`; `postcard` = a non-self-describing serde format (the repo's own
+//! tests round-trip Namespace / NamespaceProof / RowProof through it); `bytes` / `pairs` =
+//! the plain byte / tuple forms used where no message type exists.
+//!
+//! Oracle: `PartialEq` of the value types and byte equality of the encodings; where the
+//! value was obtained from a raw message assembled by the harness (fraud proofs) the encoding
+//! must also equal that message.
+use std::fmt::Debug;
+
+use celestia_proto::celestia::core::v1::da::DataAvailabilityHeader as RawDah;
+use celestia_proto::celestia::core::v1::proof::{NmtProof as RawNmtProof, Proof as RawMerkleProof, RowProof as RawRowProof, ShareProof as RawShareProof};
+use celestia_proto::header::pb::ExtendedHeader as RawExtendedHeader;
+use celestia_proto::proof::pb::Proof as RawProof;
+use celestia_proto::share::eds::byzantine::pb::BadEncoding as RawBefp;
+use celestia_types::blob::RawBlob;
+use celestia_types::fraud_proof::{BadEncodingFraudProof, Proof as FraudProofEnum};
+use celestia_types::nmt::{Namespace, NamespaceProof};
+use celestia_types::test_utils::{ExtendedHeaderGenerator, corrupt_eds, generate_dummy_eds};
+use celestia_types::{AppVersion, Blob, DataAvailabilityHeader, ExtendedHeader, MerkleProof, RawShare, RowProof, Share, ShareProof};
+use lumina_node::block_ranges::BlockRanges;
+use lv_core::*;
+use prost::Message;
+use serde::de::DeserializeOwned;
+use serde::{Deserialize, Serialize};
+use serde_json::{Value, json};
+use tendermint_proto::Protobuf;
+
+#[path = "../shared/c46_values.rs"]
+mod c46_values;
+use c46_values as vals;
+use vals::{BefpSpec, BlobSpec, HdrSpec, SquareId};
+
+// ---------------------------------------------------------------------------------------
+// work units (what a replay file names)
+
+#[derive(Clone, Debug, PartialEq, Serialize, Deserialize)]
+#[serde(tag = "unit")]
+enum Unit {
+    Namespaces,
+    Header { spec: HdrSpec },
+    /// headers made by `ExtendedHeaderGenerator` (random keys, wall-clock times): a failing
+    /// one is recorded by its protobuf bytes (`HeaderBytes`)
+    GenHeaders,
+    HeaderBytes { pb: String },
+    Dah { kind: DahKind },
+    Shares { sq: SquareId },
+    NsProofs { sq: SquareId },
+    RowProofs { sq: SquareId },
+    MerkleProofs { total: usize },
+    ShareProofs { sq: SquareId },
+    Befp { sq: SquareId, spec: BefpSpec },
+    /// fraud proofs made by `test_utils::corrupt_eds` (random); recorded by bytes (`BefpBytes`)
+    GenBefp,
+    BefpBytes { pb: String },
+    Blob { spec: BlobSpec },
+    /// all well-formed base-3 codes `lo..hi` over `n` heights above `off`
+    Ranges { n: u32, off: u64, lo: u64, hi: u64 },
+}
+
+#[derive(Clone, Copy, Debug, PartialEq, Serialize, Deserialize)]
+enum DahKind {
+    Square(SquareId),
+    EmptySquare,
+    Synthetic(usize),
+}
+
+struct Out<'a> {
+    rep: &'a mut Report,
+    unit: &'a Unit,
+    /// replay filter: (type, form, id)
+    only: Option<(String, String, String)>,
+}
+
+impl Out<'_> {
+    fn wanted(&self, ty: &str, form: &str, id: &str) -> bool {
+        match &self.only {
+            None => true,
+            Some((t, f, i)) => t == ty && f == form && i == id,
+        }
+    }
+    fn case_json(&self, ty: &str, form: &str, id: &str) -> Value {
+        json!({"unit": self.unit, "type": ty, "form": form, "id": id})
+    }
+    fn ok(&mut self, ty: &str, form: &str, id: &str, class: &str, nontrivial: bool, wire: impl FnOnce() -> String) {
+        let key = fnv64(format!("{ty}/{form}/{id}").as_bytes());
+        self.rep.case(key, &format!("{ty}/{form}:{class}"), nontrivial);
+        if self.rep.wants_sample() && key % 193 == 7 {
+            let c = self.case_json(ty, form, id);
+            let w = vals::short(wire());
+            self.rep.sample(|| json!({"case": c, "wire": w, "result": class}));
+        }
+    }
+    fn bad(&mut self, ty: &str, form: &str, id: &str, kind: &str, what: String) {
+        let key = fnv64(format!("{ty}/{form}/{id}").as_bytes());
+        self.rep.case(key, &format!("{ty}/{form}:{kind}"), true);
+        let c = self.case_json(ty, form, id);
+        self.rep.violation(&format!("{ty}/{form}:{kind}"), vals::short(what), c);
+    }
+
+    /// One (value, form) evaluation: encode, decode, compare, re-encode, compare.
+    #[allow(clippy::too_many_arguments)]
+    fn rt<T: Debug, W: PartialEq>(
+        &mut self,
+        ty: &str,
+        form: &str,
+        id: &str,
+        v: &T,
+        enc: impl Fn(&T) -> Result<W, String>,
+        dec: impl Fn(&W) -> Result<T, String>,
+        same: impl Fn(&T, &T) -> bool,
+        show: impl Fn(&W) -> String,
+    ) -> Option<W> {
+        if !self.wanted(ty, form, id) {
+            return None;
+        }
+        enum R<W> {
+            Ok(W),
+            Bad(&'static str, String),
+        }
+        let r = guard(|| {
+            let w1 = match enc(v) {
+                Ok(w) => w,
+                Err(e) => return R::Bad("encode-error", format!("encoding a valid value failed: {e}; value {v:?}")),
+            };
+            let v2 = match dec(&w1) {
+                Ok(v2) => v2,
+                Err(e) => return R::Bad("decode-error", format!("decoding the encoding of a valid value failed: {e}; wire {}; value {v:?}", show(&w1))),
+            };
+            if !same(v, &v2) {
+                return R::Bad("value-changed", format!("decode(encode(v)) != v: wire {}; before {v:?}; after {v2:?}", show(&w1)));
+            }
+            let w2 = match enc(&v2) {
+                Ok(w) => w,
+                Err(e) => return R::Bad("encode-error", format!("re-encoding the decoded value failed: {e}")),
+            };
+            if w1 != w2 {
+                return R::Bad("reencode-differs", format!("encode(decode(encode(v))) != encode(v): first {}; second {}", show(&w1), show(&w2)));
+            }
+            R::Ok(w1)
+        });
+        match r {
+            Ok(R::Ok(w)) => {
+                self.ok(ty, form, id, "ok", true, || show(&w));
+                Some(w)
+            }
+            Ok(R::Bad(kind, what)) => {
+                self.bad(ty, form, id, kind, what);
+                None
+            }
+            Err(p) => {
+                self.bad(ty, form, id, "panic", format!("panicked: {p}; value {v:?}"));
+                None
+            }
+        }
+    }
+
+    /// The three JSON forms of a serde type.
+    fn json<T: Debug + PartialEq + Serialize + DeserializeOwned>(&mut self, ty: &str, id: &str, v: &T) {
+        self.json_with(ty, id, v, |a, b| a == b)
+    }
+    fn json_with<T: Debug + Serialize + DeserializeOwned>(&mut self, ty: &str, id: &str, v: &T, same: impl Fn(&T, &T) -> bool + Copy) {
+        self.rt(ty, "json", id, v, |v| serde_json::to_string(v).map_err(es), |s| serde_json::from_str::<T>(s).map_err(es), same, |s| s.clone());
+        self.rt(ty, "json-value", id, v, |v| serde_json::to_value(v).map_err(es), |j| serde_json::from_value::<T>(j.clone()).map_err(es), same, |j| j.to_string());
+        self.rt(
+            ty,
+            "json-reader",
+            id,
+            v,
+            |v| serde_json::to_vec(v).map_err(es),
+            |b| serde_json::from_reader::<_, T>(&b[..]).map_err(es),
+            same,
+            |b| String::from_utf8_lossy(b).into_owned(),
+        );
+    }
+    fn postcard<T: Debug + PartialEq + Serialize + DeserializeOwned>(&mut self, ty: &str, id: &str, v: &T) {
+        self.rt(ty, "postcard", id, v, |v| postcard::to_allocvec(v).map_err(es), |b| postcard::from_bytes::<T>(b).map_err(es), |a, b| a == b, |b| hex::encode(b));
+    }
+    /// `pb`, `pb-ld` and `raw` of a `Protobuf<R>` type.  Returns the raw message.
+    fn proto<T, R>(&mut self, ty: &str, id: &str, v: &T) -> Option<R>
+    where
+        T: Debug + PartialEq + Clone + Protobuf<R> + TryFrom<R>,
+        <T as TryFrom<R>>::Error: std::fmt::Display,
+        R: Message + Default + From<T> + PartialEq + Clone + Debug,
+    {
+        self.rt(ty, "pb", id, v, |v| Ok(v.clone().encode_vec()), |b| T::decode_vec(b).map_err(es), |a, b| a == b, |b| hex::encode(b));
+        self.rt(
+            ty,
+            "pb-ld",
+            id,
+            v,
+            |v| Ok(v.clone().encode_length_delimited_vec()),
+            |b| T::decode_length_delimited_vec(b).map_err(es),
+            |a, b| a == b,
+            |b| hex::encode(b),
+        );
+        self.rt(ty, "raw", id, v, |v| Ok(R::from(v.clone())), |r| T::try_from(r.clone()).map_err(es), |a, b| a == b, |r| format!("{r:?}"))
+    }
+}
+
+fn es(e: impl std::fmt::Display) -> String {
+    e.to_string()
+}
+
+// ---------------------------------------------------------------------------------------
+// per-type checks
+
+fn check_header(o: &mut Out, id: &str, eh: &ExtendedHeader) {
+    o.proto::<ExtendedHeader, RawExtendedHeader>("header", id, eh);
+    o.json("header", id, eh);
+}
+
+fn check_dah(o: &mut Out, id: &str, dah: &DataAvailabilityHeader) {
+    o.proto::<DataAvailabilityHeader, RawDah>("dah", id, dah);
+    o.json("dah", id, dah);
+}
+
+fn check_namespace(o: &mut Out, id: &str, ns: &Namespace) {
+    o.rt("namespace", "bytes", id, ns, |n| Ok(n.as_bytes().to_vec()), |b| Namespace::from_raw(b).map_err(es), |a, b| a == b, |b| hex::encode(b));
+    o.rt(
+        "namespace",
+        "version-id",
+        id,
+        ns,
+        |n| Ok((n.version(), n.id().to_vec())),
+        |(v, i)| Namespace::new(*v, i).map_err(es),
+        |a, b| a == b,
+        |(v, i)| format!("{v}/{}", hex::encode(i)),
+    );
+    o.json("namespace", id, ns);
+    o.postcard("namespace", id, ns);
+}
+
+fn check_share(o: &mut Out, id: &str, s: &Share) {
+    if s.is_parity() {
+        // The raw share message and the JSON string carry the 512 bytes only.  The statement
+        // excepts parity shares: what is demanded is that encoding works and carries the
+        // bytes; the decoder either refuses them or yields a non-parity share of the same bytes.
+        if !o.wanted("share-parity", "json", id) {
+            return;
+        }
+        let bytes = s.as_ref().to_vec();
+        let r = guard(|| {
+            let raw = RawShare::from(s.clone());
+            let js = serde_json::to_string(s).map_err(es)?;
+            let back: Result<Share, String> = serde_json::from_str::<Share>(&js).map_err(es);
+            let back_raw: Result<Share, String> = Share::try_from(raw.clone()).map_err(es);
+            Ok::<_, String>((raw, js, back, back_raw))
+        });
+        match r {
+            Err(p) => o.bad("share-parity", "json", id, "panic", format!("panicked: {p}")),
+            Ok(Err(e)) => o.bad("share-parity", "json", id, "encode-error", format!("encoding a parity share failed: {e}")),
+            Ok(Ok((raw, js, back, back_raw))) => {
+                if raw.data != bytes {
+                    o.bad("share-parity", "raw", id, "value-changed", "raw share message does not carry the share bytes".into());
+                    return;
+                }
+                for (form, b) in [("json", &back), ("raw", &back_raw)] {
+                    match b {
+                        Err(_) => o.ok("share-parity", form, id, "excepted-refused", true, || js.clone()),
+                        Ok(sh) if sh.as_ref() == &bytes[..] && !sh.is_parity() => o.ok("share-parity", form, id, "excepted-decoded-as-data-share", true, || js.clone()),
+                        Ok(sh) => o.bad("share-parity", form, id, "value-changed", format!("parity share decoded to different bytes or kept a parity flag the form cannot carry: {sh:?}")),
+                    }
+                }
+            }
+        }
+        return;
+    }
+    o.rt("share", "raw", id, s, |s| Ok(RawShare::from(s.clone())), |r| Share::try_from(r.clone()).map_err(es), |a, b| a == b, |r| hex::encode(&r.data));
+    o.rt(
+        "share",
+        "pb",
+        id,
+        s,
+        |s| Ok(RawShare::from(s.clone()).encode_to_vec()),
+        |b| RawShare::decode(&b[..]).map_err(es).and_then(|r| Share::try_from(r).map_err(es)),
+        |a, b| a == b,
+        |b| hex::encode(b),
+    );
+    o.rt("share", "bytes", id, s, |s| Ok(s.to_vec()), |b| Share::from_raw(b).map_err(es), |a, b| a == b, |b| hex::encode(b));
+    o.json("share", id, s);
+}
+
+fn check_nsproof(o: &mut Out, id: &str, p: &NamespaceProof) {
+    let ty = if !p.is_of_absence() {
+        "nsproof-presence"
+    } else if p.leaf().is_some() {
+        "nsproof-absence"
+    } else {
+        "nsproof-absence-outside-range"
+    };
+    o.proto::<NamespaceProof, RawProof>(ty, id, p);
+    o.json(ty, id, p);
+    o.postcard(ty, id, p);
+    if p.max_ns_ignored() {
+        // the NMTProof message (used inside share proofs) has no flag: it implies "ignored"
+        o.rt(ty, "raw-nmt", id, p, |p| Ok(RawNmtProof::from(p.clone())), |r| NamespaceProof::try_from(r.clone()).map_err(es), |a, b| a == b, |r| format!("{r:?}"));
+    }
+}
+
+fn check_merkle(o: &mut Out, id: &str, p: &MerkleProof) {
+    o.proto::<MerkleProof, RawMerkleProof>("merkleproof", id, p);
+    o.json("merkleproof", id, p);
+    o.postcard("merkleproof", id, p);
+}
+
+fn check_rowproof(o: &mut Out, id: &str, p: &RowProof) {
+    o.proto::<RowProof, RawRowProof>("rowproof", id, p);
+    o.json("rowproof", id, p);
+    o.postcard("rowproof", id, p);
+}
+
+fn check_shareproof(o: &mut Out, id: &str, p: &ShareProof) {
+    o.proto::<ShareProof, RawShareProof>("shareproof", id, p);
+    o.json("shareproof", id, p);
+}
+
+fn check_befp(o: &mut Out, id: &str, p: &BadEncodingFraudProof, built_from: Option<&RawBefp>) {
+    let raw = o.proto::<BadEncodingFraudProof, RawBefp>("befp", id, p);
+    if let (Some(raw), Some(orig)) = (raw, built_from) {
+        if &raw != orig {
+            o.bad("befp", "raw", id, "reencode-differs", format!("the message of the decoded proof differs from the message it was decoded from: {orig:?} vs {raw:?}"));
+        }
+    }
+    let wrapped = FraudProofEnum::BadEncoding(p.clone());
+    o.json("fraudproof", id, &wrapped);
+}
+
+fn check_blob(o: &mut Out, id: &str, b: &Blob, app: AppVersion) {
+    // the protobuf message has no index field and no commitment: the decoder recomputes the
+    // commitment and leaves the index unset, so equality is demanded modulo the index
+    let same = |a: &Blob, c: &Blob| {
+        let mut a = a.clone();
+        a.index = None;
+        a == *c && c.index.is_none()
+    };
+    let ty = if b.index.is_some() { "blob-indexed" } else { "blob" };
+    o.rt(ty, "raw", id, b, |b| Ok(RawBlob::from(b.clone())), |r| Blob::from_raw(r.clone(), app).map_err(es), same, |r| vals::short(format!("{r:?}")));
+    o.rt(
+        ty,
+        "pb",
+        id,
+        b,
+        |b| Ok(RawBlob::from(b.clone()).encode_to_vec()),
+        |x| RawBlob::decode(&x[..]).map_err(es).and_then(|r| Blob::from_raw(r, app).map_err(es)),
+        same,
+        |x| hex::encode(x),
+    );
+    o.json(ty, id, b);
+}
+
+fn check_ranges(o: &mut Out, ty: &str, id: &str, r: &BlockRanges) {
+    o.json(ty, id, r);
+    o.postcard(ty, id, r);
+    // the form the redb store persists: a vector of (start, end) pairs
+    o.rt(
+        ty,
+        "pairs",
+        id,
+        r,
+        |r| {
+            let v: &[std::ops::RangeInclusive<u64>] = r.as_ref();
+            Ok(v.iter().map(|x| (*x.start(), *x.end())).collect::<Vec<(u64, u64)>>())
+        },
+        |p| {
+            let v: Vec<std::ops::RangeInclusive<u64>> = p.iter().map(|(a, b)| *a..=*b).collect();
+            BlockRanges::try_from(&v[..]).map_err(es)
+        },
+        |a, b| a == b,
+        |p| format!("{p:?}"),
+    );
+}
+
+// ---------------------------------------------------------------------------------------
+// units
+
+fn run_unit(unit: &Unit, seed: u64, only: Option<(String, String, String)>, rep: &mut Report) {
+    let mut o = Out { rep, unit, only };
+    let o = &mut o;
+    match unit {
+        Unit::Namespaces => {
+            for (id, ns) in vals::namespaces(seed) {
+                check_namespace(o, &id, &ns);
+            }
+        }
+        Unit::Header { spec } => {
+            let eh = vals::build_header(seed, spec);
+            check_header(o, &spec.id(), &eh);
+        }
+        Unit::GenHeaders => {
+            let mut generator = ExtendedHeaderGenerator::new();
+            let mut hs = vec![generator.next(), generator.next_empty(), generator.next()];
+            hs.push(generator.next_with_dah(vals::empty_square_dah()));
+            hs.extend(generator.next_many(3));
+            let mut far = ExtendedHeaderGenerator::new_from_height(1 << 40);
+            hs.push(far.next());
+            hs.push(far.next_empty());
+            for (i, eh) in hs.iter().enumerate() {
+                let u = Unit::HeaderBytes { pb: hex::encode(eh.clone().encode_vec()) };
+                let mut o2 = Out { rep: o.rep, unit: &u, only: None };
+                check_header(&mut o2, &format!("generated/{i}"), eh);
+            }
+        }
+        Unit::HeaderBytes { pb } => {
+            let bytes = hex::decode(pb).unwrap_or_else(|e| machinery_error("C46", &format!("replay: bad hex: {e}")));
+            match guard(|| ExtendedHeader::decode_vec(&bytes)) {
+                Ok(Ok(eh)) => {
+                    let id = o.only.as_ref().map(|x| x.2.clone()).unwrap_or_else(|| "generated/replay".into());
+                    check_header(o, &id, &eh);
+                }
+                other => o.bad("header", "pb", "generated/replay", "decode-error", format!("recorded header bytes do not decode: {other:?}")),
+            }
+        }
+        Unit::Dah { kind } => {
+            let (id, dah) = match kind {
+                DahKind::Square(sq) => (format!("dah/square/w{}/l{}", sq.w, sq.layout), vals::square(seed, *sq).dah),
+                DahKind::EmptySquare => ("dah/empty-square".to_string(), vals::empty_square_dah()),
+                DahKind::Synthetic(w) => (format!("dah/synthetic/w{w}"), vals::synthetic_dah(seed, *w)),
+            };
+            check_dah(o, &id, &dah);
+        }
+        Unit::Shares { sq } => {
+            let fx = vals::square(seed, *sq);
+            let w = fx.width;
+            for (i, s) in fx.eds.data_square().iter().enumerate() {
+                check_share(o, &format!("w{w}/l{}/r{}c{}", sq.layout, i / w, i % w), s);
+            }
+        }
+        Unit::NsProofs { sq } => {
+            let fx = vals::square(seed, *sq);
+            for (id, p) in vals::namespace_proofs(&fx) {
+                let id = format!("w{}/l{}/{id}", sq.w, sq.layout);
+                check_nsproof(o, &id, &p);
+                if sq.w <= 4 {
+                    check_nsproof(o, &format!("{id}/flag-cleared"), &vals::with_flag_cleared(&p));
+                }
+            }
+        }
+        Unit::RowProofs { sq } => {
+            let fx = vals::square(seed, *sq);
+            for (id, p) in vals::row_proofs(&fx) {
+                let id = format!("w{}/l{}/{id}", sq.w, sq.layout);
+                check_rowproof(o, &id, &p);
+                for (j, m) in p.proofs().iter().enumerate() {
+                    check_merkle(o, &format!("{id}/proof{j}"), m);
+                }
+            }
+        }
+        Unit::MerkleProofs { total } => {
+            for (id, p) in vals::merkle_proofs(seed, *total) {
+                check_merkle(o, &id, &p);
+            }
+        }
+        Unit::ShareProofs { sq } => {
+            let fx = vals::square(seed, *sq);
+            for (id, p) in vals::share_proofs(&fx) {
+                check_shareproof(o, &format!("w{}/l{}/{id}", sq.w, sq.layout), &p);
+            }
+        }
+        Unit::Befp { sq, spec } => {
+            let fx = vals::square(seed, *sq);
+            let raw = vals::raw_befp(&fx, seed, spec);
+            let id = format!("w{}/l{}/axis{}/i{}/present{:x}/paxes{:x}/h{}", sq.w, sq.layout, spec.axis, spec.index, spec.present, spec.proof_axes, spec.height);
+            match guard(|| BadEncodingFraudProof::try_from(raw.clone())) {
+                Ok(Ok(p)) => check_befp(o, &id, &p, Some(&raw)),
+                other => machinery_error("C46", &format!("fraud proof fixture {id} is not accepted by the decoder: {other:?}")),
+            }
+        }
+        Unit::GenBefp => {
+            for (i, w) in [4usize, 8].into_iter().enumerate() {
+                let mut generator = ExtendedHeaderGenerator::new();
+                let mut eds = generate_dummy_eds(w, AppVersion::V2);
+                let (_eh, befp) = corrupt_eds(&mut generator, &mut eds);
+                let u = Unit::BefpBytes { pb: hex::encode(befp.clone().encode_vec()) };
+                let mut o2 = Out { rep: o.rep, unit: &u, only: None };
+                check_befp(&mut o2, &format!("generated/{i}"), &befp, None);
+            }
+        }
+        Unit::BefpBytes { pb } => {
+            let bytes = hex::decode(pb).unwrap_or_else(|e| machinery_error("C46", &format!("replay: bad hex: {e}")));
+            match guard(|| BadEncodingFraudProof::decode_vec(&bytes)) {
+                Ok(Ok(p)) => {
+                    let id = o.only.as_ref().map(|x| x.2.clone()).unwrap_or_else(|| "generated/replay".into());
+                    check_befp(o, &id, &p, None);
+                }
+                other => o.bad("befp", "pb", "generated/replay", "decode-error", format!("recorded fraud proof bytes do not decode: {other:?}")),
+            }
+        }
+        Unit::Blob { spec } => {
+            let blob = vals::build_blob(seed, spec);
+            let id = format!("len{}/signer{}/ns{}/fill{}/index{:?}/app{}", spec.len, spec.signer as u8, spec.ns, spec.fill, spec.index, spec.app);
+            check_blob(o, &id, &blob, vals::app_version(spec.app));
+            // the shares of the blob are data shares with sequence length / signer / padding
+            if spec.index.is_none() && spec.len <= 2000 {
+                match guard(|| blob.to_shares()) {
+                    Ok(Ok(shares)) => {
+                        for (j, s) in shares.iter().enumerate() {
+                            check_share(o, &format!("blob/{id}/share{j}"), s);
+                        }
+                    }
+                    other => machinery_error("C46", &format!("blob fixture {id}: to_shares failed: {other:?}")),
+                }
+            }
+        }
+        Unit::Ranges { n, off, lo, hi } => {
+            for code in *lo..*hi {
+                let Some(v) = vals::ranges_of_code(*n, *off, code) else { continue };
+                let r = vals::block_ranges(&v);
+                let ty = if v.is_empty() {
+                    "blockranges-empty"
+                } else if vals::is_merged(&v) {
+                    "blockranges"
+                } else {
+                    "blockranges-adjacent"
+                };
+                check_ranges(o, ty, &format!("n{n}/off{off}/code{code}"), &r);
+            }
+        }
+    }
+}
+
+fn squares(tier: Tier) -> Vec<SquareId> {
+    let widths: &[usize] = tier.pick(&[2, 4, 8], &[2, 4, 8, 16, 32]);
+    let mut out = vec![];
+    for w in widths {
+        for layout in 0..3 {
+            out.push(SquareId { w: *w, layout });
+        }
+    }
+    out
+}
+
+fn units(tier: Tier) -> Vec<Unit> {
+    let deep = tier == Tier::Thorough;
+    let mut u = vec![Unit::Namespaces];
+    // block ranges: n heights, base-3 codes in chunks
+    let n: u32 = tier.pick(8, 10);
+    let total = 3u64.pow(n);
+    for off in [0u64, (1 << 53) - 2, i64::MAX as u64 - 3, u64::MAX - n as u64] {
+        let chunk = 729;
+        let mut lo = 0;
+        while lo < total {
+            u.push(Unit::Ranges { n, off, lo, hi: (lo + chunk).min(total) });
+            lo += chunk;
+        }
+    }
+    for total in 1..=tier.pick(9, 17) {
+        u.push(Unit::MerkleProofs { total });
+    }
+    u.push(Unit::Dah { kind: DahKind::EmptySquare });
+    for w in [2usize, 4, 64, 128, 256, 512, 1024] {
+        u.push(Unit::Dah { kind: DahKind::Synthetic(w) });
+    }
+    for spec in vals::blob_specs(deep) {
+        u.push(Unit::Blob { spec });
+    }
+    for spec in vals::header_specs(deep) {
+        u.push(Unit::Header { spec });
+    }
+    u.push(Unit::GenHeaders);
+    u.push(Unit::GenBefp);
+    for sq in squares(tier) {
+        u.push(Unit::Dah { kind: DahKind::Square(sq) });
+        u.push(Unit::RowProofs { sq });
+        if sq.w <= tier.pick(8, 16) {
+            u.push(Unit::Shares { sq });
+            u.push(Unit::NsProofs { sq });
+            u.push(Unit::ShareProofs { sq });
+        }
+        if sq.w <= tier.pick(8, 32) {
+            for spec in vals::befp_specs(sq.w) {
+                u.push(Unit::Befp { sq, spec });
+            }
+        }
+    }
+    u
+}
+
+const REQUIRED: &[&str] = &[
+    // extended headers, DAHs
+    "header/pb:ok", "header/pb-ld:ok", "header/raw:ok", "header/json:ok", "header/json-value:ok", "header/json-reader:ok",
+    "dah/pb:ok", "dah/pb-ld:ok", "dah/raw:ok", "dah/json:ok", "dah/json-value:ok", "dah/json-reader:ok",
+    // blobs
+    "blob/pb:ok", "blob/raw:ok", "blob/json:ok", "blob/json-value:ok", "blob/json-reader:ok",
+    "blob-indexed/pb:ok", "blob-indexed/raw:ok", "blob-indexed/json:ok", "blob-indexed/json-value:ok", "blob-indexed/json-reader:ok",
+    // shares
+    "share/raw:ok", "share/pb:ok", "share/bytes:ok", "share/json:ok", "share/json-value:ok", "share/json-reader:ok",
+    "share-parity/json:excepted*", "share-parity/raw:excepted*",
+    // namespaces
+    "namespace/bytes:ok", "namespace/version-id:ok", "namespace/json:ok", "namespace/json-value:ok", "namespace/json-reader:ok", "namespace/postcard:ok",
+    // namespace proofs
+    "nsproof-presence/pb:ok", "nsproof-presence/pb-ld:ok", "nsproof-presence/raw:ok", "nsproof-presence/raw-nmt:ok", "nsproof-presence/json:ok",
+    "nsproof-presence/json-value:ok", "nsproof-presence/json-reader:ok", "nsproof-presence/postcard:ok",
+    "nsproof-absence/pb:ok", "nsproof-absence/pb-ld:ok", "nsproof-absence/raw:ok", "nsproof-absence/raw-nmt:ok", "nsproof-absence/json:ok",
+    "nsproof-absence/json-value:ok", "nsproof-absence/json-reader:ok", "nsproof-absence/postcard:ok",
+    "nsproof-absence-outside-range/pb:ok", "nsproof-absence-outside-range/raw:ok", "nsproof-absence-outside-range/json:ok",
+    // merkle / row / share proofs
+    "merkleproof/pb:ok", "merkleproof/pb-ld:ok", "merkleproof/raw:ok", "merkleproof/json:ok", "merkleproof/json-value:ok", "merkleproof/json-reader:ok", "merkleproof/postcard:ok",
+    "rowproof/pb:ok", "rowproof/pb-ld:ok", "rowproof/raw:ok", "rowproof/json:ok", "rowproof/json-value:ok", "rowproof/json-reader:ok", "rowproof/postcard:ok",
+    "shareproof/pb:ok", "shareproof/pb-ld:ok", "shareproof/raw:ok", "shareproof/json:ok", "shareproof/json-value:ok", "shareproof/json-reader:ok",
+    // fraud proofs
+    "befp/pb:ok", "befp/pb-ld:ok", "befp/raw:ok", "fraudproof/json:ok", "fraudproof/json-value:ok", "fraudproof/json-reader:ok",
+    // block ranges
+    "blockranges/json:ok", "blockranges/json-value:ok", "blockranges/json-reader:ok", "blockranges/postcard:ok", "blockranges/pairs:ok",
+    "blockranges-adjacent/json:ok", "blockranges-adjacent/pairs:ok", "blockranges-empty/json:ok", "blockranges-empty/pairs:ok",
+];
+
+fn main() {
+    let ctx = Ctx::from_args("C46");
+    let seed = ctx.seed;
+    let rep = if let Some(c) = ctx.replay_case() {
+        let unit: Unit = serde_json::from_value(c["unit"].clone()).unwrap_or_else(|e| machinery_error("C46", &format!("replay: bad unit: {e}")));
+        let only = match (c["type"].as_str(), c["form"].as_str(), c["id"].as_str()) {
+            (Some(t), Some(f), Some(i)) => Some((t.to_string(), f.to_string(), i.to_string())),
+            _ => None,
+        };
+        let mut rep = Report::new();
+        run_unit(&unit, seed, only, &mut rep);
+        if rep.evaluations == 0 {
+            machinery_error("C46", "replay: the recorded case was not found in its unit");
+        }
+        rep
+    } else {
+        let us = units(ctx.tier);
+        let n_units = us.len();
+        let mut rep = par_cases(us, |u, rep| run_unit(&u, seed, None, rep));
+        rep.extra("units", json!(n_units));
+        rep
+    };
+    finish(
+        &ctx,
+        rep,
+        Spec {
+            rule: "E1 over deterministic families of valid values, every value through every wire form of its type (one evaluation = one (type, form, value): encode, decode, compare, re-encode, compare). \
+Families: namespaces (7 named constants, v0 zero/max, 80 single-bit and 20 single-byte v0 ids, all 256 v255 ids, 16 seeded); extended headers from the deterministic multi-validator chain builder (one dimension at a time over heights 1..i64::MAX, times with nanosecond corners, 1..7 validators with commit/nil/absent votes, rounds, DAH widths 2..1024 synthetic and real, app versions 1..7, chain ids, absent optional hashes; thorough adds their products) plus ExtendedHeaderGenerator headers; DAHs of every structured square (extended widths 2,4,8 quick; +16,32 thorough; 3 namespace layouts), of the empty square and synthetic ones up to width 1024; every share of those squares (original and parity quadrants) and of every blob; blobs of boundary lengths x share version 0/1 x index None/Some x 4 namespaces x 3 fills; every complete-namespace proof (presence / absence / absence outside the root range) of every row and column for every probe namespace and every leaf-range proof (all ranges up to width 8, single leaves and the full range above), with and without ignore_max_ns; row proofs of every row range (merkle proofs inside and standalone for 1..9/17 leaves); share proofs of every namespace run, every single share and every sub-range (self-checked with verify); bad-encoding fraud proofs decoded from messages assembled from the real trees (both axes, indexes, presence masks, proof-axis mixes) plus corrupt_eds ones; BlockRanges for every well-formed base-3 code (absent/start/continue) over 8 (quick) / 10 (thorough) heights at 4 offsets incl. one ending at u64::MAX (covers all 2^n merged sets and every split into adjacent ranges). \
+distinct = (type, form, value id); non-trivial = all",
+            assumptions: &[
+                "values are valid values of their types: built by the library constructors or self-checked with validate()/verify(); Option<Hash> fields are None or Some(Sha256), never Some(Hash::None) (tendermint-rs encodes both as empty bytes)",
+                "parity shares: the raw share message and the JSON string carry only the 512 bytes, so they are excepted as the statement says (recorded as excepted-refused / excepted-decoded-as-data-share)",
+                "blob protobuf form has no index/commitment field: equality is demanded modulo the index, the commitment is recomputed with the app version the blob was created with",
+                "BadEncodingFraudProof has private fields: values are obtained through TryFrom of a message assembled by the harness, and the encoding must equal that message",
+                "generator-made headers / corrupt_eds fraud proofs use random keys and wall-clock time; a failing one is recorded by its protobuf bytes",
+                "postcard stands for the non-self-describing serde formats (serde-wasm-bindgen of the IndexedDb store is not available natively)",
+            ],
+            required_classes: REQUIRED,
+            exhaustive: true,
+        },
+    );
+}
